@@ -644,6 +644,7 @@ func c01RecycleRace(f []string) vResult {
 		start := make(chan struct{})
 		var wg sync.WaitGroup
 		var pan atomic.Value
+		var ready int32
 		for g := 0; g < 2; g++ {
 			wg.Add(1)
 			go func() {
@@ -654,6 +655,11 @@ func c01RecycleRace(f []string) vResult {
 					}
 				}()
 				<-start
+				// a spinning barrier: both goroutines are ON a processor when they go (on a loaded machine a channel alone
+				// lets one finish before the other is scheduled, and nothing races)
+				atomic.AddInt32(&ready, 1)
+				for i := 0; atomic.LoadInt32(&ready) < 2 && i < 50000000; i++ {
+				}
 				lb.recycle()
 			}()
 		}
